@@ -203,8 +203,13 @@ func repr(r *rand.Rand, v any, o ReprOpts, t *ReprTrace, depth int) any {
 		return listOf(r, x, els, o, t)
 	case map[string]any:
 		els := make(map[string]any, len(x))
-		for k, e := range x {
-			els[k] = repr(r, e, o, t, depth+1)
+		ks := make([]string, 0, len(x))
+		for k := range x {
+			ks = append(ks, k)
+		}
+		sortStrings(ks) // never consume randomness in map order
+		for _, k := range ks {
+			els[k] = repr(r, x[k], o, t, depth+1)
 		}
 		return mapOf(r, x, els, o, t)
 	}
